@@ -262,7 +262,7 @@ def run(fail):
         exec(ln, T)
     T["L"].backward()
     g = {n: (None if T[n].grad is None else T[n].grad.tolist()) for n in TN if n in T and isinstance(T[n], mg.Tensor)}
-    return raised, s1, snap(T), float(np.sum(T["L"].data)), g, T["RO"].data.flags.writeable or not T["IT"].data.flags.writeable or not T["IT8"].data.flags.writeable or T["NC"].shape != (3, 2) or T["NCV"].shape != (3, 2) or not np.shares_memory(T["NCV"].data, T["NCB"].data)
+    return raised, s1, snap(T), float(np.sum(T["L"].data)), g, T["RO"].data.flags.writeable or not T["IT"].data.flags.writeable or not T["IT8"].data.flags.writeable or T["NC"].shape != (3, 2) or T["NCV"].shape != (3, 2) or not np.shares_memory(T["NCV"].data, T["NCB"].data) or T["NCV"].base is not T["NCB"]
 ra, a1, a2, La, ga, roa = run(True)
 for k_ in list(lm._array_counter): pass
 lm._array_counter.clear(); lm._array_tracker.clear(); lm._views_waiting_for_unlock.clear()
